@@ -242,6 +242,7 @@ func loadCorpus() {
 		corpusList = append(corpusList, objStmCorpus()...)
 		corpusList = append(corpusList, fontCorpus("base0", bases[0])...)
 		corpusList = append(corpusList, dctCorpus("base0", bases[0])...)
+		corpusList = append(corpusList, imageCorpus()...)
 		for i, d := range bases {
 			vs := objStmVariants(fmt.Sprintf("base%d", i), d)
 			corpusList = append(corpusList, vs...)
@@ -272,6 +273,17 @@ func plan(e *common.Env) []planItem {
 			p = append(p, planItem{Kind: "base", Arg: i, Mode: m, Label: fmt.Sprintf("base%d", i)})
 		}
 	}
+	// the enumerated token sequences of family N (Mode 1: Seed is the index)
+	nIdx := -1
+	for f := range families {
+		if families[f].name == "N" {
+			nIdx = f
+		}
+	}
+	nEnum := len(nestEnums)
+	for i := 0; i < nEnum; i++ {
+		p = append(p, planItem{Kind: "N", Arg: nIdx, Mode: 1, Seed: uint64(i)})
+	}
 	nMut := e.Pick(2600, 45000)
 	nFam := e.Pick(600, 8000)
 	// families and mutants interleaved, so that a time-limited run sees all
@@ -289,6 +301,13 @@ func plan(e *common.Env) []planItem {
 		}
 	}
 	return p
+}
+
+func familyCase(it planItem, R *rand.Rand) modelCase {
+	if it.Kind == "N" && it.Mode == 1 {
+		return enumNest(int(it.Seed))
+	}
+	return families[it.Arg].gen(R)
 }
 
 func caseBytes(it planItem, idx int) ([]byte, string) {
@@ -420,13 +439,15 @@ func runWorker(e *common.Env, k, w, from int, outPath string) {
 			cur, curData = l, d
 			mu.Unlock()
 			runCase(&l.caseResult, func(st *walkStats) { walk(d, pdf.ReaderErrorHandling(it.Mode), st) }, func() { abort("timeout") })
-			if l.Status != "ok" {
+			l.Viol = l.Stats.Viol
+			l.Stats.Viol = nil
+			if l.Status != "ok" || len(l.Viol) > 0 {
 				l.File = filepath.Join(e.Dir, fmt.Sprintf("suspect-%d.pdf", idx))
 				os.WriteFile(l.File, d, 0o644)
 			}
 		default:
 			R := rand.New(rand.NewPCG(it.Seed, uint64(idx)))
-			mc := families[it.Arg].gen(R)
+			mc := familyCase(it, R)
 			l.Case = mc.Line
 			l.Label = mc.Class
 			l.Len = len(mc.Line)
@@ -483,7 +504,7 @@ func runOne(e *common.Env, idx int) {
 		runCase(&l.caseResult, func(st *walkStats) { walk(d, pdf.ReaderErrorHandling(it.Mode), st) }, hang)
 	default:
 		R := rand.New(rand.NewPCG(it.Seed, uint64(idx)))
-		mc := families[it.Arg].gen(R)
+		mc := familyCase(it, R)
 		runCase(&l.caseResult, func(st *walkStats) { l.Obs, l.Viol = mc.Run() }, hang)
 	}
 	report()
@@ -696,6 +717,10 @@ func main() {
 			}
 		}
 		for _, v := range l.Viol {
+			if l.Case == "" {
+				e.Fail(v.Signature, v.What, failCase(e, l))
+				continue
+			}
 			e.Fail(v.Signature, v.What, map[string]any{"idx": l.Idx, "kind": l.Kind, "case": trunc(l.Case, 4000),
 				"replay": fmt.Sprintf("harness c05 -one %d (VERIF_SEED=%d VERIF_TIER as in this run)", l.Idx, e.Seed)})
 		}
